@@ -10,6 +10,7 @@ cleanup() { git -C /repo worktree remove --force $wt >/dev/null 2>&1; rm -rf $wt
 trap cleanup EXIT
 cd $wt
 FL="-std=c++17 -I $wt/code/include -lpthread -ldl $*"
+[ -f "$d/demo_flags" ] && FL="$FL $(cat "$d/demo_flags")"
 g++ $FL "$d/demo.cpp" -o $wt/demo_clean -lpthread -ldl 2>$wt/cerr || { echo "DEMO DOES NOT COMPILE (clean)"; tail -5 $wt/cerr; exit 8; }
 timeout 120 $wt/demo_clean >/dev/null 2>&1; rc_clean=$?
 git apply "$d/patch.diff" || { echo "PATCH DOES NOT APPLY"; exit 7; }
